@@ -36,16 +36,114 @@ fn shim_str_trim<'a>(s: &'a str) -> (r: &'a str)
     // a trimmed string neither starts nor ends with a space (U+0020 is White_Space); which bytes are removed is abstract
     ensures sb(r) == spec_trim(sb(s)), sb(r).len() > 0 ==> sb(r)[0] != 32 && sb(r)[sb(r).len() - 1] != 32,
 { s.trim() }
+// ---- functional forms: first / last occurrence of a byte, and the two splits built on them ----
+pub open spec fn first_byte(s: Seq<u8>, c: u8) -> Option<int>
+    decreases s.len()
+{
+    if s.len() == 0 { None } else if s[0] == c { Some(0int) } else { match first_byte(s.subrange(1, s.len() as int), c) { Some(i) => Some(i + 1), None => None } }
+}
+pub open spec fn last_byte(s: Seq<u8>, c: u8) -> Option<int>
+    decreases s.len()
+{
+    if s.len() == 0 { None } else if s[s.len() - 1] == c { Some(s.len() - 1) } else { last_byte(s.subrange(0, s.len() - 1), c) }
+}
+pub open spec fn split_first(s: Seq<u8>, c: u8) -> Option<(Seq<u8>, Seq<u8>)> {
+    match first_byte(s, c) { Some(i) => Some((s.subrange(0, i), s.subrange(i + 1, s.len() as int))), None => None }
+}
+pub open spec fn split_last(s: Seq<u8>, c: u8) -> Option<(Seq<u8>, Seq<u8>)> {
+    match last_byte(s, c) { Some(i) => Some((s.subrange(0, i), s.subrange(i + 1, s.len() as int))), None => None }
+}
+pub open spec fn has_prefix8(s: Seq<u8>, p: Seq<u8>) -> bool { p.len() <= s.len() && s.subrange(0, p.len() as int) == p }
+pub proof fn lemma_first_byte(s: Seq<u8>, c: u8)
+    ensures match first_byte(s, c) {
+        Some(i) => 0 <= i < s.len() && s[i] == c && !s.subrange(0, i).contains(c),
+        None => !s.contains(c),
+    },
+    decreases s.len()
+{
+    if s.len() == 0 { } else if s[0] == c { assert(s.subrange(0, 0).len() == 0); } else {
+        let t = s.subrange(1, s.len() as int);
+        lemma_first_byte(t, c);
+        match first_byte(t, c) {
+            Some(i) => {
+                let pre = s.subrange(0, i + 1);
+                if pre.contains(c) { let j = choose|j: int| 0 <= j < pre.len() && pre[j] == c; assert(j > 0); assert(t.subrange(0, i)[j - 1] == c); }
+            },
+            None => { if s.contains(c) { let j = choose|j: int| 0 <= j < s.len() && s[j] == c; assert(t[j - 1] == c); } },
+        }
+    }
+}
+pub proof fn lemma_last_byte(s: Seq<u8>, c: u8)
+    ensures match last_byte(s, c) {
+        Some(i) => 0 <= i < s.len() && s[i] == c && !s.subrange(i + 1, s.len() as int).contains(c),
+        None => !s.contains(c),
+    },
+    decreases s.len()
+{
+    if s.len() == 0 { } else if s[s.len() - 1] == c { assert(s.subrange(s.len() as int, s.len() as int).len() == 0); } else {
+        let t = s.subrange(0, s.len() - 1);
+        lemma_last_byte(t, c);
+        match last_byte(t, c) {
+            Some(i) => {
+                let suf = s.subrange(i + 1, s.len() as int);
+                if suf.contains(c) { let j = choose|j: int| 0 <= j < suf.len() && suf[j] == c; assert(j < suf.len() - 1); assert(t.subrange(i + 1, t.len() as int)[j] == c); }
+            },
+            None => { if s.contains(c) { let j = choose|j: int| 0 <= j < s.len() && s[j] == c; assert(t[j] == c); } },
+        }
+    }
+}
+// splitting a concatenation `a ++ [c] ++ b` gives back (a, b) when the delimiter does not occur on the relevant side
+pub proof fn lemma_split_first_concat(a: Seq<u8>, c: u8, b: Seq<u8>)
+    requires !a.contains(c),
+    ensures split_first(a + seq![c] + b, c) == Some((a, b)),
+    decreases a.len()
+{
+    let s = a + seq![c] + b;
+    if a.len() == 0 { assert(s[0] == c); assert(s.subrange(0, 0) =~= a); assert(s.subrange(1, s.len() as int) =~= b); } else {
+        assert(s[0] == a[0]); assert(a.contains(a[0]));
+        let a1 = a.subrange(1, a.len() as int);
+        if a1.contains(c) { let j = choose|j: int| 0 <= j < a1.len() && a1[j] == c; assert(a[j + 1] == c); }
+        assert(s.subrange(1, s.len() as int) =~= a1 + seq![c] + b);
+        lemma_split_first_concat(a1, c, b);
+        let i = first_byte(a1 + seq![c] + b, c)->0;
+        lemma_first_byte(a1 + seq![c] + b, c);
+        assert((a1 + seq![c] + b).subrange(0, i) == a1);
+        assert((a1 + seq![c] + b).subrange(0, i).len() == i);
+        assert(i == a1.len());
+        assert(s.subrange(0, i + 1) =~= a); assert(s.subrange(i + 2, s.len() as int) =~= b);
+    }
+}
+pub proof fn lemma_split_last_concat(a: Seq<u8>, c: u8, b: Seq<u8>)
+    requires !b.contains(c),
+    ensures split_last(a + seq![c] + b, c) == Some((a, b)),
+    decreases b.len()
+{
+    let s = a + seq![c] + b;
+    if b.len() == 0 { assert(s[s.len() - 1] == c); assert(s.subrange(0, s.len() - 1) =~= a); assert(s.subrange(s.len() as int, s.len() as int) =~= b); } else {
+        let n = b.len() as int;
+        assert(s[s.len() - 1] == b[n - 1]); assert(b.contains(b[n - 1]));
+        let b1 = b.subrange(0, n - 1);
+        if b1.contains(c) { let j = choose|j: int| 0 <= j < b1.len() && b1[j] == c; assert(b[j] == c); }
+        assert(s.subrange(0, s.len() - 1) =~= a + seq![c] + b1);
+        lemma_split_last_concat(a, c, b1);
+        let i = last_byte(a + seq![c] + b1, c)->0;
+        lemma_last_byte(a + seq![c] + b1, c);
+        assert((a + seq![c] + b1).subrange(0, i) == a);
+        assert((a + seq![c] + b1).subrange(0, i).len() == i);
+        assert(i == a.len());
+        assert(s.subrange(0, i) =~= a); assert(s.subrange(i + 1, s.len() as int) =~= b);
+    }
+}
 // `s.starts_with(p)` for a string pattern
 #[verifier::external_body]
 fn shim_str_starts_with(s: &str, p: &str) -> (r: bool)
-    ensures r ==> sb(p).len() <= sb(s).len() && sb(s).subrange(0, sb(p).len() as int) == sb(p) && is_cb(s, sb(p).len() as int),
+    ensures r == has_prefix8(sb(s), sb(p)), r ==> sb(p).len() <= sb(s).len() && sb(s).subrange(0, sb(p).len() as int) == sb(p) && is_cb(s, sb(p).len() as int),
 { s.starts_with(p) }
 // `s.ends_with(c)` for an ASCII char pattern
 #[verifier::external_body]
 fn shim_str_ends_with_char(s: &str, c: char) -> (r: bool)
     requires is_ascii_char(c),
-    ensures r ==> sb(s).len() >= 1 && sb(s)[sb(s).len() - 1] == c as u8 && is_cb(s, sb(s).len() - 1),
+    ensures r == (sb(s).len() >= 1 && sb(s)[sb(s).len() - 1] == c as u8), r ==> is_cb(s, sb(s).len() - 1),
 { s.ends_with(c) }
 #[verifier::external_body]
 fn shim_str_ends_with_chars<const N: usize>(s: &str, cs: [char; N]) -> (r: bool) { s.ends_with(cs) }
@@ -85,6 +183,7 @@ fn shim_str_split_once_char<'a>(s: &'a str, c: char) -> (r: Option<(&'a str, &'a
     requires is_ascii_char(c),
     // split at the FIRST occurrence: the left part does not contain the delimiter
     ensures match r { Some((a, b)) => sb(s) == sb(a) + seq![c as u8] + sb(b) && !sb(a).contains(c as u8), None => !sb(s).contains(c as u8) },
+        match r { Some((a, b)) => split_first(sb(s), c as u8) == Some((sb(a), sb(b))), None => split_first(sb(s), c as u8) is None },
 { s.split_once(c) }
 // `s.split_once(pat)` with a string pattern: split at the first occurrence
 #[verifier::external_body]
@@ -101,6 +200,7 @@ fn shim_str_rsplit_once_char<'a>(s: &'a str, c: char) -> (r: Option<(&'a str, &'
     requires is_ascii_char(c),
     // split at the LAST occurrence: the right part does not contain the delimiter
     ensures match r { Some((a, b)) => sb(s) == sb(a) + seq![c as u8] + sb(b) && !sb(b).contains(c as u8), None => !sb(s).contains(c as u8) },
+        match r { Some((a, b)) => split_last(sb(s), c as u8) == Some((sb(a), sb(b))), None => split_last(sb(s), c as u8) is None },
 { s.rsplit_once(c) }
 #[verifier::external_body]
 fn shim_str_strip_prefix_char<'a>(s: &'a str, c: char) -> (r: Option<&'a str>) { s.strip_prefix(c) }
